@@ -32,8 +32,12 @@ func H_C15_event_hist() {
 	var order []int // global call log: hook indices in call order
 	triggers := 0
 	n := verifrt.Param("events", 4)
-	for s := 0; s < n; s++ {
-		switch verifrt.Choose("event", 4) {
+	for s := 0; s <= n; s++ {
+		kind := 2 // every history ends with a Trigger
+		if s < n {
+			kind = verifrt.Choose("event", 4)
+		}
+		switch kind {
 		case 0: // Hook (optionally limited, optionally unhooking itself inside the callback)
 			verifrt.Assume(len(hooks) < 3)
 			hk := &c15Hook{live: true, max: verifrt.Choose("hookMax", 3)}
